@@ -22,4 +22,15 @@ PROPS = {
         "level_note": "signature validity enters the model as a bit computed by the harness with the real keys; model hand-written, validated by correspondence; extraction, OCaml runner, Go harness trusted",
         "notes": ["completeness is stated for primary (first valid) votes; an equivocating validator's second vote is by design tallied only for blocks a peer claimed (DESIGN C15)"],
     },
+    "C16": {
+        "props_file": "Props/C16.v",
+        "engines": [{"name": "valset", "n_quick": 500, "n_thorough": 15000}],
+        "level_text": "Coq theorems over an executable model of ValidatorSet (IncrementAccum after the F-16a repair, TotalVotingPower/Proposer caches, Add/Update/Remove, NewValidatorSet, persistence round trip, Hash): the list stays strictly sorted (duplicate-free) under every operation; batched increments equal single increments; exact proportional selection in EVERY window of total-power consecutive selections from a fresh set (proved via an integer-list development, Proofs/Fairness.v); proposer-after-persistence and proportionality-after-a-change are refuted by witnesses (known findings F-16b, F-16c). Tied to /repo by differential runs over handles (copies, persisted twins) with all observables after every step, plus monitors (sortedness, cache consistency, copy independence, replica agreement after reload, windowed fairness).",
+        "level_note": "fairness theorem assumes non-negative powers and total^2 < 2^60 (no int64 wrap); hash of a validator modelled at byte level and checked through the recorded hash oracle; model hand-written and validated by correspondence",
+        "assumptions": [
+            "validator addresses distinct in NewValidatorSet (sort.Sort is unstable on equal keys)",
+            "non-negative powers, total voting power T with T*T < 2^60 for the proportionality theorem",
+        ],
+        "notes": ["Proposer().Accum of a copy aliases the original's validator object (only the address is compared); observed as address only"],
+    },
 }
